@@ -1,2 +1,2 @@
-import BB.Driver.BlockMapCommon
-def main : IO Unit := BB.Driver.loop BB.Driver.BlockMapCommon.step {}
+import BB.Driver.Both
+def main : IO Unit := BB.Driver.loop BB.Driver.Both.step {}
